@@ -9,10 +9,11 @@ cd $WT || exit 2
 git checkout -q -- . ; git clean -fdq -e target
 git apply $OUT/patch.diff || { echo "APPLY FAILED"; exit 2; }
 mkdir -p $WT/$CRATE/tests; cp $OUT/$DEMO $WT/$CRATE/tests/$NAME.rs
-cargo test --offline -p $CRATE $FEATURES --test $NAME > /tmp/confirm6_${PROP}_${N}_with.log 2>&1; WITH=$?
+TT=""; grep -q -- "--test-threads 1" $OUT/$DEMO && TT="-- --test-threads 1"
+cargo test --offline -p $CRATE $FEATURES --test $NAME $TT > /tmp/confirm6_${PROP}_${N}_with.log 2>&1; WITH=$?
 SUITE=$(cargo nextest run --workspace --no-fail-fast --offline --test-threads 8 2>&1 | grep "Summary" | tail -1)
 git apply -R $OUT/patch.diff
-cargo test --offline -p $CRATE $FEATURES --test $NAME > /tmp/confirm6_${PROP}_${N}_without.log 2>&1; WITHOUT=$?
+cargo test --offline -p $CRATE $FEATURES --test $NAME $TT > /tmp/confirm6_${PROP}_${N}_without.log 2>&1; WITHOUT=$?
 rm -f $WT/$CRATE/tests/$NAME.rs
 git checkout -q -- . ; git clean -fdq -e target
 echo "$PROP/$N: demo with patch exit=$WITH (want !=0), without exit=$WITHOUT (want 0); suite with patch (+demo tests): $SUITE"
